@@ -313,7 +313,78 @@ fn searched_then_corrupted(cx: &super::GenCtx) -> Vec<Plan> {
     vec![plan]
 }
 
+/// "along any game" includes games far longer than a playout of forty moves: 260 to 1 700 plies
+/// (a line of up to 8.5 kB, more than a default `BufReader` holds), so that whatever an engine
+/// keeps per ply of the game - move history, remembered positions, counters, the line itself -
+/// is taken past 256, 512 and 1 024 entries and past 8 192 bytes. The game is sent whole,
+/// extended, taken back, repeated, and with one move - the last, or one in the middle -
+/// replaced by a move that is not legal there.
+fn long_game_session(cx: &super::GenCtx) -> Vec<Plan> {
+    let seed = cx.seed;
+    let mut rng = Rng::new(seed ^ 0x10_96a3e);
+    let mut plan = Plan::new("C08", seed);
+    let mut s: Vec<Action> = vec![];
+    let (start, from_startpos) = if rng.chance(2, 3) { (Pos::start(), true) } else { start_position(&mut rng) };
+    let plies = match rng.below(5) {
+        0 => rng.range(250, 270),
+        1 => rng.range(505, 530),
+        2 => rng.range(1020, 1040),
+        3 => rng.range(1640, 1700),
+        _ => rng.range(260, 1700),
+    } as usize;
+    let biased = rng.chance(1, 2);
+    let (ms, ps) = playout(&start, plies, &mut rng, biased);
+    let base: Vec<String> = ms.iter().map(Mv::uci).collect();
+    let n = base.len();
+    if rng.chance(1, 3) {
+        s.push(Action::send("ucinewgame"));
+    }
+    let mut variants: Vec<Vec<String>> = vec![base.clone()];
+    let last = ps.last().unwrap();
+    if let Some(m) = last.legal_moves().first() {
+        let mut v = base.clone();
+        v.push(m.uci());
+        variants.push(v);
+    }
+    if n > 2 {
+        variants.push(base[..n - 1].to_vec());
+        variants.push(base[..rng.usize_below(n)].to_vec());
+        // one move replaced: the last one, and one anywhere
+        for at in [n - 1, rng.usize_below(n)] {
+            let cands = illegal_candidates(&ps[at], &mut rng);
+            if !cands.is_empty() {
+                let mut v = base.clone();
+                v[at] = rng.pick(&cands).0.clone();
+                variants.push(v);
+            }
+        }
+    }
+    variants.push(base.clone());
+    let first = variants.remove(0);
+    rng.shuffle(&mut variants);
+    variants.truncate(rng.range(2, 6) as usize);
+    variants.insert(0, first);
+    for v in variants {
+        s.push(Action::send(position_cmd(&start, from_startpos, &v, &mut rng)));
+    }
+    s.push(Action::send("isready"));
+    s.push(Action::send("quit"));
+    gen::decorate_all(&mut s, &mut rng, 2);
+    plan.script = s;
+    plan.step_cap = 4_000_000;
+    plan.tick_cap = 16_000_000;
+    gen::machine(&mut plan, &mut rng, 10_000, false);
+    gen::schedule(&mut plan, &mut rng, 3_000);
+    plan.params = super::super::json::J::obj()
+        .set("related_position_commands", 0u64)
+        .set("long_game_plies", n as u64);
+    vec![plan]
+}
+
 pub fn generate(cx: &super::GenCtx) -> Vec<Plan> {
+    if cx.index % 64 == 37 {
+        return long_game_session(cx);
+    }
     if cx.index % 16 == 5 {
         return searched_then_corrupted(cx);
     }
@@ -581,6 +652,16 @@ pub fn check(plans: &[Plan], recs: &[RunRec]) -> Outcome {
     out.stats.add("position_checks", checked);
     out.stats.add("reach.related_position_commands", plans[0].params.u("related_position_commands"));
     out.stats.add("reach.illegal_tails_after_search", plans[0].params.u("illegal_tails_after_search"));
+    let lg = plans[0].params.u("long_game_plies");
+    if lg > 0 {
+        out.stats.inc("reach.long_game_session");
+        if lg > 1024 {
+            out.stats.inc("reach.game_longer_than_1024_plies");
+        }
+        if h.lines.iter().any(|l| l.text.len() > 8192) {
+            out.stats.inc("reach.line_longer_than_8192_bytes");
+        }
+    }
     if rec.end == EndReason::Deadlock {
         out.violations
             .push(Violation::new("wedged", "nothing runnable before the session finished"));
